@@ -67,6 +67,41 @@ def run(rep, F, ctx):
                     '%s:%d' % (B.file, B.line), '' if (ok and args_ok) else 'follow does not set the followed flag together with the swap, or swaps other fields')
     rep.floor('GUARDED-BY', 'guarded sites', m, 5)
 
+    rep.rule('KIND-INHERIT', 'Memfs::_symlink switches the new link to directory kind only on the is_dir() edge of the entry looked up under the SAME resolved target '
+             'value that is stored as the link target (link_to argument): the kind is inherited from the target itself, not from another spelling or base')
+    fn = '<%s>::_symlink' % MEMFS
+    if fn in F.bodies:
+        from panics import known_facts, skey_call
+        B = cg.body(fn)
+        lt = {sdesc_operand(B, t['args'][1]) for i, t in B.calls() if (callee_of(t) or '').endswith('MemfsEntryOpts>::link_to')}
+        dirs = [i for i, t in B.calls() if (callee_of(t) or '').endswith('MemfsEntryOpts>::dir')]
+        probs = []
+        if len(lt) != 1:
+            probs.append('link_to is called with %d different target values' % len(lt))
+        T = sorted(lt)[0] if lt else None
+        want = 'get_entry(arg2,%s)' % T
+        for i in dirs:
+            good = False
+            for d in B.dom[i]:
+                tt = B.term(d)
+                if tt['k'] != 'switch' or tt.get('discr_ty') != 'bool':
+                    continue
+                dl = op_local(tt['discr'])
+                ds = B.whole_defs(dl) if dl is not None else []
+                if len(ds) == 1 and ds[0][0] == 'call' and (callee_of(ds[0][3]) or '').split('::')[-1] == 'is_dir':
+                    src = sdesc_operand(B, ds[0][3]['args'][0])
+                    tt_true = [tb for v, tb in tt['targets'] if v == '1'] or [tt['otherwise']]
+                    if src.startswith(want) and B.dominates(tt_true[0], i):
+                        good = True
+            if not good:
+                probs.append('the switch to directory kind at %s is not decided by is_dir() of the entry stored under the link target %s' % (B.loc(i), T))
+        if not dirs:
+            probs.append('_symlink never switches a link to directory kind')
+        rep.add('KIND-INHERIT', 'kindinherit:_symlink', '_symlink inherits the link kind from the entry stored under the resolved target', not probs, '%s:%d' % (B.file, B.line),
+                '' if not probs else '; '.join(probs) + ' — is_symlink_dir / is_symlink_file no longer reflect the kind of the target for every spelling')
+    else:
+        rep.add('KIND-INHERIT', 'kindinherit:_symlink', 'Memfs::_symlink exists', False, detail='anchor missing')
+
     rep.rule('NOFOLLOW', 'Stdfs::remove obtains the kind of its target from symlink_metadata (the entry itself), never from the link-following metadata')
     fn = '<%s>::remove' % STDFS
     if fn in F.bodies:
